@@ -62,16 +62,18 @@ def meat(index, rep):
     cls = index.cls(MD, "MeatAndDairy")
     init = index.func(MD, "MeatAndDairy.initialize_this_country_animal_kcals")
     calc = index.func(MD, "MeatAndDairy.calculate_meat_after_distribution_waste")
-    params = [a.arg for a in calc.args.args][2:]
-    if params != [l[0] for l in LANES]:
+    params = [a.arg for a in calc.args.args][1:]
+    if len(params) != 1 + len(LANES):
         raise AnalysisError(f"calculate_meat_after_distribution_waste parameters changed: {params}")
     culled = [Rat.atom(("culled", i)) for i in range(5)]
+    from .core import bind_named as _bn5
+    calc_a, calc_k = _bn5(calc, [("constants_inputs", Path(("ci",)))] + list(zip([l[0] for l in LANES], culled)))
 
     def runit(it):
         it.classes = {"MeatAndDairy": cls}
         obj = Obj(cls, {}, "self")
         it.call_function(init, [Path(("ci",))], {}, obj)
-        return it.call_function(calc, [Path(("ci",))] + culled, {}, obj), obj
+        return it.call_function(calc, list(calc_a), dict(calc_k), obj), obj
 
     try:
         envs = explore(runit, month_classes=False)
